@@ -68,6 +68,10 @@ def _path(clf, X, y=None, alpha_multiplier=1.05, min_features=2, keep_threshold=
 
     # Start by fitting the model using all features and without regularisation
     alpha = clf.alpha
+    if alpha <= 0:
+        warnings.warn(f"The initial alpha is 0: multiplying it by alpha_multiplier would never increase the penalty and "
+                      f"the path would never end. Setting it to default: 1e-2")
+        alpha = 1e-2
     clf.set_params(alpha=0)
 
     if clf.verbose:
